@@ -115,7 +115,7 @@ func C09(c *Ctx, r *report.Run) error {
 		}
 	}
 	r.Programs = len(specs)
-	w, err := ws.Build(c.Bins, specs, ws.Options{Variant: ws.H, Tag: "rtH2", Harness: true})
+	w, err := ws.Build(c.Bins, specs, ws.Options{Variant: ws.H, Tag: "rtH2ts", Harness: true, TS: true})
 	if err != nil {
 		return err
 	}
@@ -123,9 +123,19 @@ func C09(c *Ctx, r *report.Run) error {
 	if err := RunHarness(c, w, r, "c09", units, nil, specIndex(w)); err != nil {
 		return err
 	}
+	// the same cases against the generated TS server (single-file units: one server module per unit)
+	var tsUnits []rt.JobUnit
+	for _, ju := range units {
+		if u := w.Unit(ju.Name); u != nil && len(u.Spec.Files) == 1 {
+			tsUnits = append(tsUnits, ju)
+		}
+	}
+	if err := c09TS(c, r, w, tsUnits); err != nil {
+		return err
+	}
 	r.States, r.Transitions, r.Traces = r.Evaluations, r.Evaluations, r.Evaluations
 	r.Assumptions = []string{"M-hdr exemplars: must-accept values are valid per the OpenAPI type/format published for the header (RFC 3339 full-time for format time), must-reject values are not well-formed; values in neither set are not judged",
-		"only the Go server is exercised here; the TS server's header gate is part of C08's bridge run"}
+		"the TS server receives the same cases through the node bridge (fetch Request objects); header values the Fetch API cannot carry unchanged (control bytes, non-UTF-8, surrounding whitespace) are sent to the Go server only; 'decided before the body is read' is observed on the Go server by counting body reads, on the TS server by the malformed-body cases answering with the header violations"}
 	return nil
 }
 
